@@ -1,5 +1,4 @@
 #include "hv.h"
 namespace hv {
-std::string handle_resolve(const JV &) { return "{\"ok\":false,\"harness_error\":\"not implemented\"}"; }
 std::string handle_realtime(const JV &) { return "{\"ok\":false,\"harness_error\":\"not implemented\"}"; }
 }
